@@ -108,8 +108,14 @@ def check_zoom(ctx, interp, rng):
 
 def check_azimuthal(ctx, psf, rng):
     size = int(rng.integers(2, 40))
-    kind = int(rng.integers(0, 4))
-    if kind == 0:
+    kind = int(rng.integers(0, 6))
+    if kind == 4:        # bright core on a faint flat floor (dynamic range ~1e20)
+        data = np.full((size, size), 1e-20)
+        data[size // 2 - 1:size // 2 + 1, size // 2 - 1:size // 2 + 1] = 1.0
+    elif kind == 5:      # unit sky with an enormous core
+        data = np.ones((size, size))
+        data[size // 2, size // 2] = 1e19
+    elif kind == 0:
         data = np.full((size, size), float(rng.uniform(-5, 5)))
     elif kind == 1:
         data = rng.standard_normal((size, size))
